@@ -250,6 +250,34 @@ async def session(sc):
         if sc.get('tail') and lost['exc'] == 'none' and len(snaps) >= 2 and not mini.kex_in_progress:
             if sc['tail'] == 'newkeys':
                 mini.send_raw_packet(bytes([M.MSG_NEWKEYS]))
+            elif sc['tail'] == 'kexinit_early':
+                # asyncssh has sent its NEWKEYS, MiniSSH's NEWKEYS is withheld and a KEXINIT (still under the old
+                # keys, with the sequence number the NEWKEYS would have had) arrives in its place.  Needs a cipher
+                # without running state (chacha20-poly1305) and non-strict kex (sequence numbers keep counting).
+                old_tx = mini._tx
+                mini.start_rekey()
+                held = None
+                for _ in range(400):
+                    out = mini.take_output()
+                    if out and mini._stage == 'wait_newkeys':
+                        held = out                      # NEWKEYS (+ anything sent right behind it): withheld
+                        break
+                    if out:
+                        link.conn.data_received(out)
+                    elif link.to_mini:
+                        mini.feed(link.to_mini.popleft())
+                    else:
+                        await asyncio.sleep(0)
+                if held is None or mini.strict or old_tx.kind != 'chachapoly':
+                    res['problems'].append(('harness', 'kexinit_early: could not reach the state with NEWKEYS withheld'))
+                else:
+                    payload = mini.our_kexinit_payload
+                    padlen = 8 - (1 + len(payload)) % 8
+                    if padlen < 4:
+                        padlen += 8
+                    body = bytes([padlen]) + payload + bytes(padlen)
+                    seq = (mini.send_seq - 1) % 2 ** 32         # the number the withheld NEWKEYS used
+                    link.conn.data_received(old_tx.seal(seq, body))
             elif sc['tail'] == 'kexinit2':         # a second KEXINIT while the exchange it started is still running
                 mini.start_rekey()
                 for _ in range(6):
@@ -290,7 +318,7 @@ async def session(sc):
                 await asyncio.sleep(0)
             exc = lost['exc']
             errored = not isinstance(exc, str) and exc is not None
-            if sc['tail'] in ('newkeys', 'kexinit2'):
+            if sc['tail'] in ('newkeys', 'kexinit2', 'kexinit_early'):
                 rejected = errored
             else:       # accepted = the stale packet's content reached the application (a stall on a garbage length is not)
                 rejected = b'stale keys' not in echoed()
@@ -300,7 +328,7 @@ async def session(sc):
         ops = S.to_ops(link.tap)
         code = 0
         if res.get('tail', {}).get('errored'):
-            if sc['tail'] in ('newkeys', 'kexinit2'):
+            if sc['tail'] in ('newkeys', 'kexinit2', 'kexinit_early'):
                 code, which = (2, 'RecvNewKeys') if sc['tail'] == 'newkeys' else (1, 'RecvKexInit')
                 last = max((i for i, o in enumerate(ops) if o['act'][0] == which), default=len(ops) - 1)
                 ops = ops[:last + 1]
@@ -334,6 +362,9 @@ def gen(rng, k):
     encs, mac = fams[k % len(fams)]
     plans = [['mini', 'mini', 'algs', 'mini'], ['async', 'algs', 'mini', 'async'], ['mini', 'algs', 'async', 'algs', 'mini'],
              ['async', 'async', 'algs', 'async']]
+    if k % 7 == 6:      # KEXINIT in place of the peer's NEWKEYS (see session(): stateless cipher, non-strict kex)
+        return {'role': 'client', 'kex': 'curve25519-sha256', 'encs': ['chacha20-poly1305@openssh.com'], 'mac': None,
+                'strict': False, 'rekey_bytes': 1 << 30, 'plan': ['mini'], 'tail': 'kexinit_early'}
     return {'role': 'client' if k % 2 == 0 else 'server',
             'kex': rng.choice(['curve25519-sha256', 'ecdh-sha2-nistp256', 'diffie-hellman-group14-sha256']) if k % 3 == 0 else 'curve25519-sha256',
             'encs': encs, 'mac': mac, 'strict': k % 4 != 3, 'rekey_bytes': rng.choice([3000, 8192]) if 'async' in plans[k % len(plans)] else 1 << 30,
